@@ -601,7 +601,11 @@ def run_shard(desc):
     counters = {"pairs": 0, "decided_bind": 0, "undecided": 0, "may_raise": 0, "reserved_checked": 0,
                 "forwarded_checked": 0, "pair_checked": 0}
     violations, sigs, samples = [], set(), []
+    from vmon.render import release_library_caches
+
     for i in range(desc["count"]):
+        if i % 25 == 0:
+            release_library_caches()
         run_one(rng, counters, violations, sigs, samples)
         if i % 3 == 0:
             run_forwarded(rng, counters, violations, sigs)
